@@ -81,7 +81,10 @@ def run_enum(case):
         stored = int(f.get_model().get_val())
         l = vsc.list_t(vsc.enum_t(E))
         l.append(m)
-        res.append([members.index(got), stored, members.index(l[0]), members.index([x for x in l][0]) if False else members.index(l[0])])
+        it0 = [x for x in l][0]
+        init = vsc.enum_t(E, m).get_val()            # the initial value given to the constructor
+        res.append([members.index(got), stored, members.index(l[0]), members.index(it0) if it0 in members else -1,
+                    members.index(init) if init in members else -1])
     return {"enum": res}
 
 
